@@ -323,9 +323,9 @@ package collection
 //@   prop C09, C01
 //@   requires w != nil && w.size >= 1 && len(w.buckets) == w.size && start >= 0 && count >= 0
 //@   loop 1 entry [starts-at-zero] i == 0
-//@   loop 1 invariant 0 <= i && i <= count
+//@   loop 1 invariant 0 <= i && i <= count && calls(fn) == i
 //@   loop 1 iteration-ensures [one-call-per-bucket-in-order] calls(fn) == 1 && arg(fn, 0) == w.buckets[(start + at_head(i)) % w.size] && i == at_head(i) + 1
-//@   ensures [none-for-empty-range] count <= 0 ==> calls(fn) == 0
+//@   ensures [exactly-count-calls] calls(fn) == count
 //@   modifies nothing
 
 // Reduce at time `now`: visits the size - span buckets that are still inside the window (one fewer when the
@@ -383,7 +383,7 @@ package collection
 //@   loop 1 iteration-ensures [move-dispatched] nMove == 1 ==> calls(w.moveTask) == 1 && arg(w.moveTask, 1).key == ret(on("recv", w.moveChannel)).key && arg(w.moveTask, 1).delay == ret(on("recv", w.moveChannel)).delay
 //@   loop 1 iteration-ensures [drain-dispatched] nDrain == 1 ==> calls(w.drainAll, ret(on("recv", w.drainChannel))) == 1
 //@   loop 1 iteration-ensures [tick-dispatched] nSet + nRemove + nMove + nDrain == 0 ==> calls(w.onTick) == 1
-//@   ensures [ends-only-on-stop] calls(on("recv", w.stopChannel)) == 1 && calls(Stop) == 1 && calls(onTick) + calls(setTask) + calls(removeTask) + calls(moveTask) + calls(drainAll) == 0
+//@   ensures [ends-only-on-stop] tail(calls(on("recv", w.stopChannel)) == 1 && calls(Stop) == 1 && calls(onTick) + calls(setTask) + calls(removeTask) + calls(moveTask) + calls(drainAll) == 0)
 
 // Drain hands the function to the wheel goroutine, or reports ErrClosed when the wheel was stopped.
 //@ func (*TimingWheel).Drain
